@@ -135,7 +135,13 @@ def tounicode_model(entries):
             put(e[1], e[2])
         elif e[0] == "range":
             for i in range(e[2] - e[1] + 1):
-                put(e[1] + i, increment_target(e[3], i))
+                try:
+                    put(e[1] + i, increment_target(e[3], i))
+                except UnicodeDecodeError:
+                    if e[2] - e[1] < 0x1000:
+                        raise
+                    # the identity range over the whole two-byte space passes through the surrogates: no text is
+                    # defined for those codes, and the generator never shows them
         elif e[0] == "array":
             if len(e[3]) != e[2] - e[1] + 1:
                 raise ValueError("array length")
@@ -266,6 +272,10 @@ def random_tounicode(rnd, nbytes, shown_codes, max_entries=12, p_cover=0.8):
     feats = set()
     used = set()
     entries = []
+    if nbytes == 2 and rnd.random() < 0.1 and not any(0xD800 <= c <= 0xDFFF for c in shown_codes):
+        # what many producers write: one range over the whole code space, code -> the same UTF-16 code unit (65536
+        # members, the last one being <FFFF>)
+        return [["range", 0, 0xFFFF, "\x00"]], {"bfrange-incr", "bfrange-whole-space"}
     anchors = [c for c in dict.fromkeys(shown_codes) if rnd.random() < p_cover]
     rnd.shuffle(anchors)
     anchors = anchors[:max_entries]
